@@ -55,7 +55,7 @@ CLAIMED = {
    technique='deterministic simulation: the real HTTP client, server, socket and file code over an in-process TCP stub (seeded fragmentation, short sends, latency, bounded send buffers -> back-pressure) with a seeded scheduler deciding every handler/client interleaving; raw clients with an independent HTTP writer/reader (arbitrary fragmentation, chunked uploads, keep-alive, Expect: 100-continue); per-request exactness and cross-talk oracles; AddressSanitizer; knob-randomised send block',
    text='Seeded search over request/response plans (1-8 quick, up to 24 thorough requests in flight; bodies boundary-biased around the 16000-byte read block and 128000-byte send block up to 300 KiB, sampled to 8 MiB in thorough; JSON and file bodies with every satisfiable range shape) crossed with network behaviours that are legal for a TCP stream and with schedules. Exact oracle: handler observation = what was sent, client observation = what the handler produced for its own id. Evidence, not proof. Two range edge shapes are recorded as known findings (known_findings.json).',
    ref='DESIGN.md 2.5, 5 (C10), 5x',
-   note='Trusted: network stub fidelity, the harness-side HTTP reader/writer for raw peers, asl::Json::encode as comparison for JSON bodies; exact configuration only (no resets/stalls beyond timeouts); pipelining is not exercised.'),
+   note='Trusted: network stub fidelity, the harness-side HTTP reader/writer for raw peers, asl::Json::encode as comparison for JSON bodies; exact configuration only (no resets/stalls beyond timeouts); pipelining is exercised on the server side by C09 only; an HttpRequest object handed to Http::request() a second time is not generated (DESIGN.md section 9, observations).'),
  'C14': dict(
    technique='deterministic simulation: real SocketServer/Socket/Thread code over an in-process TCP/Unix network stub and simulated clock; raw clients (bursts, trickles, early closes) and stop(true)/destroy at seeded instants; flavour T preempts at every memory access with a heap-lifetime table (finds stop/destroy races), flavour A re-runs the plans at I/O granularity under AddressSanitizer; exactly-once, ordering and bounded-termination oracles over the recorded history',
    text='Seeded search over histories (N clients, early closes, stop(true) at an arbitrary simulated instant, destruction) crossed with schedules in which the clock may advance while threads are descheduled. Found and fixed two use-after-free defects on the unchanged tree (handler thread deleting itself, destructor deleting the accept thread while it still runs). Evidence, not proof.',
